@@ -253,8 +253,8 @@ def configs(tier):
             L.append(({"cls": "SyncFIFO", "args": {"depth": depth, "buffered": buf}, "dw": 1},
                       _cfg("id", cap=depth + 3, fl=1 if depth == 3 else 0)))
         L.append(({"cls": "Delay", "args": {"n": 3}, "dw": 1}, _cfg("id", cap=5)))
-        L.append(({"cls": "StrideConverter", "args": {"fields": [1, 2], "ratio": 3, "up": True}, "pw": 1},
-                  dict(_cfg("up", dset=range(8), ratio=3, w=3, pmax=1, cap=3), fields=[1, 2], wit=["field-wise word"])))
+        L.append(({"cls": "StrideConverter", "args": {"fields": [1, 2], "ratio": 2, "up": True}},     # unequal widths, no junk (cost)
+                  dict(_cfg("up", dset=range(8), fl=0, ratio=2, w=3, cap=3), fields=[1, 2], wit=["field-wise word"])))
         L.append(({"cls": "StrideConverter", "args": {"fields": [1, 1], "ratio": 3, "up": False, "reverse": True}},
                   dict(_cfg("down", dset=(1, 2, 4, 8, 16, 32, 27, 44, 63), ratio=3, reverse=1, w=2, cap=4), fields=[1, 1],
                        wit=["field-wise word"])))
@@ -309,9 +309,9 @@ def _wants_junk(spec, cfg, tier):
             return (a["nfrom"], a["nto"]) in ((1, 2), (2, 4), (2, 1), (1, 3), (3, 1))
         return (a["nfrom"], a["nto"], bool(a.get("reverse"))) in ((1, 2, False), (2, 1, False), (1, 3, True), (3, 1, False))
     if cls == "StrideConverter":
-        return bool(spec.get("pw")) or (bool(a.get("fields")) and (th or not a["up"]))
+        return bool(spec.get("pw")) or (bool(a.get("fields")) and ((th and a["fields"] == [1, 1]) or not a["up"]))
     if cls == "Gearbox":
-        return (a["i"], a["o"]) == (2, 3) or (th and (a["i"], a["o"]) == (4, 2))
+        return (a["i"], a["o"]) == (2, 3)
     if cls == "Pipeline":
         return th and spec["stages"][0]["cls"] == "Converter"
     return False
